@@ -435,7 +435,14 @@ def analyse(ctx, src_name, path, steps, only=None, count=True, base=None):
     vc = vclass(steps)
 
     def viol(sig, what, label, extra=None):
-        ctx.violation(sig, what, {"file": src_name, "steps": steps, "label": label, "extra": extra})
+        repro = None
+        if not steps and label is not None:
+            repro = (
+                "import molli as ml\nfrom molli.ftypes.cdxml import CDXMLFile\n"
+                f"m = CDXMLFile(ml.files.ROOT / {src_name!r})[{label!r}]\n"
+                "print(m.n_atoms, m.n_bonds, m.charge, m.mult)\nprint([(a.element.symbol, a.isotope, a.formal_charge, a.formal_spin) for a in m.atoms])\nprint(m.coords)\n"
+            )
+        ctx.violation(sig, what, {"file": src_name, "steps": steps, "label": label, "extra": extra}, repro=repro)
 
     D = Drawing(path)
     try:
